@@ -12,6 +12,8 @@ T = 'src/types.rs'
 MUTANTS = [
     ('types::SourceMapIndex::lookup_token', 'if line == off_line \\{ col - off_col \\} else \\{ col \\}', 'col.saturating_sub(off_col)'),
     ('types::SourceMapIndex::lookup_token', 'line - off_line', 'line'),
+    ('types::DecodedMap::lookup_token', 'DecodedMap::Index\\(ref smi\\) => smi\\.lookup_token\\(line, col\\)', 'DecodedMap::Index(ref smi) => smi.lookup_token(line, 0)'),
+    ('types::DecodedMap::lookup_token', 'DecodedMap::Hermes\\(ref smh\\) => smh\\.lookup_token\\(line, col\\)', 'DecodedMap::Hermes(ref smh) => None'),
 ]
 
 
@@ -31,21 +33,21 @@ def build(u):
     text = re.sub(r'(?m)^\s*//[/!][^\n]*\n', '', text)
     u.count('R-derive')
     u.emit_text('types::DecodedMap', text, origin)
-    u.raw('stub SourceMapHermes', '//@@ prelude hermes_stub\n#[verifier::external_body]\npub struct SourceMapHermes { _x: u8 }\n//@@ endprelude\n')
+    H = 'src/hermes.rs'
+    emit_struct(u, H, 'HermesScopeOffset')
+    emit_struct(u, H, 'HermesFunctionMap')
+    u.raw('stub FacebookSources', '//@@ prelude facebook_sources_stub\n//# assumes: jsontypes::FacebookSources is an opaque payload here\n#[verifier::external_body]\npub struct FacebookSources { _x: u8 }\n//@@ endprelude\n')
+    emit_struct(u, H, 'SourceMapHermes')
+    u.use('use std::ops::Deref;')
+    # the real Deref impl of SourceMapHermes: `smh.lookup_token(..)` in the dispatch goes through it
+    emit_method(u, H, r'Deref for SourceMapHermes', 'deref', 'hermes::SourceMapHermes::deref')
     u.spec('order.rs')
+    u.spec('tokens.rs')
     u.spec('index.rs')
-    # DecodedMap::lookup_token: dispatch; its result is named dm_lookup (assumed contract)
-    u.raw('stub DecodedMap::lookup_token', '''//@@ prelude decodedmap_lookup_stub
-//# assumes: DecodedMap::lookup_token(line, col) returns dm_lookup(self, line, col) (a naming of its result; the Regular arm is SourceMap::lookup_token, proved in u2_lookup)
-pub uninterp spec fn dm_lookup<'a>(dm: &'a DecodedMap, line: u32, col: u32) -> Option<Token<'a>>;
-impl DecodedMap {
-    #[verifier::external_body]
-    pub fn lookup_token(&self, line: u32, col: u32) -> (res: Option<Token<'_>>)
-        ensures res == dm_lookup(self, line, col)
-    { unimplemented!() }
-}
-//@@ endprelude
-''')
+    u.spec('index_lookup.rs')
+    import_method(u, T, r'SourceMap\b', 'lookup_token', 'types::SourceMap::lookup_token', 'u2_lookup.ctr', 'u2_lookup',
+                  prep=lambda f: f.annotate_closure('t', 't: &RawToken', '(k: (u32, u32)) ensures k == $BODY', expect=1))
+    emit_method(u, T, r'DecodedMap\b', 'lookup_token', 'types::DecodedMap::lookup_token')
     for g in ['get_offset_line', 'get_offset_col', 'get_offset', 'get_sourcemap']:
         emit_method(u, T, r'SourceMapSection\b', g, 'types::SourceMapSection::' + g,
                     prep=lambda f: u.count('R-shim-call', f.rewrite(r'\bBox::as_ref\b', 'verif_box_as_ref')))
